@@ -2,7 +2,8 @@
    Statements only; every proof is `exact <lemma>`; Print Assumptions follows each.
    The reader is `read step s0 lines = fold_left step' lines s0` where a failing statement hands the handler the state as it is
    at that moment (model/LineFold.v).  Generic theorems hold for ANY step function; the instances are the DBC-like and SYM-like
-   statement languages of model/LineFold.v.  `dbc_step`/`sym_step` follow the repaired readers, `*_orig` the readers as found. *)
+   statement languages of model/LineFold.v.  `dbc_step`/`sym_step` follow the readers as they are now (all repairs but one:
+   the BA_ value check was declined, `dbc_step_gen true c` has it for c = true), `*_orig` the readers as found. *)
 From CM Require Import lib.Prelude model.ArbId model.LineFold proofs.C20_generic proofs.C20_dbc proofs.C20_sym.
 
 (* ---------------------------------------------- generic ---------------------------------------------- *)
@@ -49,22 +50,24 @@ Print Assumptions C20_prefix_keeps_complete_objects.
 (* ---------------------------------------------- DBC-like ---------------------------------------------- *)
 (* whatever statement fails, the matrix is as before (only the loop variable `frame` may have moved) *)
 Theorem C20_dbc_steps_fail_before_mutation :
-  forall s l s', dbc_step s l = Fail s' -> frames s' = frames s.
+  forall c s l s', dbc_step_gen true c s l = Fail s' -> frames s' = frames s.
 Proof. exact dbc_fail_frames. Qed.
 Print Assumptions C20_dbc_steps_fail_before_mutation.
 
-(* the three fault kinds (unknown keyword, missing field = truncated, field of the wrong type) never touch the matrix *)
+(* the three fault kinds (unknown keyword, missing field = truncated, field of the wrong type) never touch the matrix.
+   c = false (the reader as it is, `dbc_malformed = dbc_malformed_gen false`): all malformed lines EXCEPT a BA_ line whose value is
+   present but not a number or quoted string; c = true (with the declined check): all of them. *)
 Theorem C20_dbc_malformed_lines_leave_matrix :
-  forall l, dbc_malformed l = true -> forall s, frames (step' dbc_step s l) = frames s.
+  forall c l, dbc_malformed_gen c l = true -> forall s, frames (step' (dbc_step_gen true c) s l) = frames s.
 Proof. exact dbc_malformed_frames. Qed.
 Print Assumptions C20_dbc_malformed_lines_leave_matrix.
 
 (* any number of malformed lines inserted anywhere except directly before an SG_ line of a file in which every SG_ line follows
    its BO_ line or another SG_ line: same matrix, same post-processing result *)
 Theorem C20_dbc_insertions_outside_signal_lists :
-  forall clean faulted, DbcInserted clean faulted -> sg_guarded clean = true ->
-  forall s, frames (read dbc_step s faulted) = frames (read dbc_step s clean) /\
-            dbc_post (read dbc_step s faulted) = dbc_post (read dbc_step s clean).
+  forall c clean faulted, DbcInserted c clean faulted -> sg_guarded clean = true ->
+  forall s, frames (read (dbc_step_gen true c) s faulted) = frames (read (dbc_step_gen true c) s clean) /\
+            dbc_post (read (dbc_step_gen true c) s faulted) = dbc_post (read (dbc_step_gen true c) s clean).
 Proof. exact dbc_insertions_outside_signal_lists. Qed.
 Print Assumptions C20_dbc_insertions_outside_signal_lists.
 
@@ -76,6 +79,16 @@ Theorem C20_dbc_insertion_inside_signal_list_refuted :
     frames (read dbc_step dbc_init [ex_bo; bad; ex_sg]) <> frames (read dbc_step dbc_init clean) /\ clean = [ex_bo; ex_sg].
 Proof. exact dbc_insertion_inside_signal_list_refuted. Qed.
 Print Assumptions C20_dbc_insertion_inside_signal_list_refuted.
+
+(* the exclusion of BA_ lines with a present, non-grammatical value from `dbc_malformed` is necessary for the reader as it is
+   (known finding): `BA_ "GenMsgCycleTime" BO_ 291 abc;` is malformed by the grammar, is not skipped and changes the matrix *)
+Theorem C20_dbc_ba_value_not_skipped_refuted :
+  let l := LBaBo gen_msg_cycle_time (Num 291) (VWord 9) in
+  dbc_malformed_gen true l = true /\ dbc_malformed l = false /\
+  (exists s', dbc_step ex_state l = Ok s' /\ frames s' <> frames ex_state) /\
+  (forall s, frames (step' dbc_step_strict s l) = frames s).
+Proof. exact dbc_ba_value_not_skipped_refuted. Qed.
+Print Assumptions C20_dbc_ba_value_not_skipped_refuted.
 
 (* the reader as found: SG_MUL_VAL_ (unknown signal; malformed range) and VAL_ (malformed key) change the matrix and then fail *)
 Theorem C20_dbc_orig_fail_before_mutation_refuted :
@@ -90,13 +103,13 @@ Print Assumptions C20_dbc_orig_fail_before_mutation_refuted.
 
 (* no step (of either reader) removes a frame or alters a signal's name, placement, byte order, sign, factor, offset *)
 Theorem C20_dbc_steps_preserve_introduced :
-  forall fixed, preserves_introduced (dbc_step_gen fixed) dbc_objs.
+  forall atomic check, preserves_introduced (dbc_step_gen atomic check) dbc_objs.
 Proof. exact dbc_steps_preserve_introduced. Qed.
 Print Assumptions C20_dbc_steps_preserve_introduced.
 
 Theorem C20_dbc_prefix_keeps_frames_and_signals :
-  forall fixed l1 l2 o,
-    dbc_objs (read (dbc_step_gen fixed) dbc_init l1) o -> dbc_objs (read (dbc_step_gen fixed) dbc_init (l1 ++ l2)) o.
+  forall atomic check l1 l2 o,
+    dbc_objs (read (dbc_step_gen atomic check) dbc_init l1) o -> dbc_objs (read (dbc_step_gen atomic check) dbc_init (l1 ++ l2)) o.
 Proof. exact dbc_prefix_keeps_frames_and_signals. Qed.
 Print Assumptions C20_dbc_prefix_keeps_frames_and_signals.
 
@@ -115,13 +128,13 @@ Print Assumptions C20_dbc_defining_lines_introduce.
 
 (* the modelled post-processing step never raises, whatever was read *)
 Theorem C20_dbc_post_total :
-  forall ls, load_with dbc_step dbc_post dbc_init ls <> None.
+  forall atomic check ls, load_with (dbc_step_gen atomic check) dbc_post dbc_init ls <> None.
 Proof. exact dbc_post_total. Qed.
 Print Assumptions C20_dbc_post_total.
 
 Theorem C20_dbc_orig_post_total_refuted :
-  load_with dbc_step_orig dbc_post_orig dbc_init [ex_bo; LBaBo gen_msg_cycle_time (Num 291) Bad] = None /\
-  load_with dbc_step_orig dbc_post_orig dbc_init [ex_bo; LBaBo gen_msg_cycle_time (Num 291) (Str 9)] = None.
+  load_with dbc_step_orig dbc_post_orig dbc_init [ex_bo; LBaBo gen_msg_cycle_time (Num 291) (VWord 9)] = None /\
+  load_with dbc_step_orig dbc_post_orig dbc_init [ex_bo; LBaBo gen_msg_cycle_time (Num 291) (VStr 9)] = None.
 Proof. exact dbc_orig_post_total_refuted. Qed.
 Print Assumptions C20_dbc_orig_post_total_refuted.
 
@@ -177,7 +190,7 @@ Example C20_example :
   let clean := [ex_bo; ex_sg; LVal (Num 291) (Str 3) [(Num 0, Str 5)] true] in
   let faulted := [LUnknown 7; ex_bo; ex_sg; LBo (Num 5) (Str 1) Bad Bad; LVal (Num 291) (Str 3) [(Num 7, Str 5); (Bad, Str 6)] true;
                   LVal (Num 291) (Str 3) [(Num 0, Str 5)] true] in
-  DbcInserted clean faulted /\ sg_guarded clean = true /\
+  DbcInserted false clean faulted /\ sg_guarded clean = true /\
   frames (read dbc_step dbc_init faulted) = frames (read dbc_step dbc_init clean) /\
   length (frames (read dbc_step dbc_init clean)) = 1%nat /\
   let yclean := [yhdr; YId (Num 291) true; yvar] in
